@@ -11,6 +11,8 @@ const FUNCTIONS: [&str; 3] = ["offset", "offset_lms_sampling", "offset_scaling"]
 const HAUSDORFF: f64 = 1.5;
 
 pub const C10_CLASSES: [&str; 8] = ["arch", "s_curve", "two_inflections", "near_line", "straight_line", "gentle_random", "random", "duplicate_extremity"];
+/// classes added later: drawn from a stream of their own so that the inputs of the fixed seeds (known findings are keyed by them) stay what they were
+pub const C10_LATER_CLASSES: [&str; 2] = ["nearly_symmetric_s", "exactly_symmetric_s"];
 
 pub fn gen_curve(rng: &mut Rng, class: &str) -> Cub {
     match class {
@@ -32,6 +34,18 @@ pub fn gen_curve(rng: &mut Rng, class: &str) -> Cub {
                 if ex.windows(2).any(|p| p[0] == p[1]) && regularity(&w, 100).0 >= 1.0 { return w; }
             }
             gen_class(rng, "arch")
+        }
+        "nearly_symmetric_s" | "exactly_symmetric_s" => {
+            // an S that is point-symmetric about its mid point (its inflection is at t = 1/2 and the quadratic of
+            // `find_inflection_points` loses its leading coefficient), exactly or up to a rounding-sized displacement of the last
+            // point (1e-9 .. 5e-6): from seeded change C10-m7
+            let (p0, p3) = (Coord2(rng.r(5.0, 45.0), rng.r(5.0, 95.0)), Coord2(rng.r(55.0, 95.0), rng.r(5.0, 95.0)));
+            let d = p3 - p0; let n = Coord2(-d.1, d.0);
+            let (a, h) = (rng.r(0.2, 0.45), rng.r(0.1, 0.35) * if rng.b() { 1.0 } else { -1.0 });
+            let off = d * a + n * h;
+            let e = if class == "exactly_symmetric_s" { 0.0 } else { 10f64.powf(rng.r(-9.0, -5.3)) };
+            let ang = rng.r(0.0, std::f64::consts::TAU);
+            [p0, p0 + off, p3 - off, p3 + Coord2(e * ang.cos(), e * ang.sin())]
         }
         _ => gen_class(rng, class),
     }
@@ -162,6 +176,13 @@ pub fn search(seed: u64, n: u64) {
         let mut a = rng.r(1.0, 8.0);
         if rng.b() && kmax > 1e-9 { let lim = (0.5 / kmax).min(8.0); if lim >= 1.0 { a = rng.r(1.0f64.max(lim * 0.6), lim); } }
         let d = a * if rng.b() { 1.0 } else { -1.0 };
+        check(&mut stats, &w, d, class);
+    }
+    let mut rng2 = Rng(seed ^ 0x5EA2C10B);
+    for it in 0..(n / 6 + 20) {
+        let class = if it % 4 == 3 { "exactly_symmetric_s" } else { "nearly_symmetric_s" };
+        let w = gen_curve(&mut rng2, class);
+        let d = rng2.r(1.0, 8.0) * if rng2.b() { 1.0 } else { -1.0 };
         check(&mut stats, &w, d, class);
     }
     stats.print("C10", "search");
